@@ -1307,6 +1307,9 @@ class Scene(Geometry3D):
                 if result.geometry[geometry].vertices.shape[1] == 2:
                     # if our scene is 2D only scale in 2D
                     result.geometry[geometry].apply_transform(scale_2D)
+                    # a planar geometry can't have the transform of its
+                    # node baked in so the nodes keep their transforms
+                    new_geom = scale_3D
                 else:
                     # otherwise apply the full transform
                     result.geometry[geometry].apply_transform(new_geom)
